@@ -393,6 +393,7 @@ def run(chk):
     _fiberarity_rule(chk, prog)
     _heldacross_rule(chk, prog)
     _marshalheld_rule(chk, prog)
+    _blocklists_rule(chk, prog)
 
 
 ACQUIRE = ("socket", "accept", "accept4", "open", "dup", "inotify_init1", "inotify_init", "epoll_create1", "timerfd_create",
@@ -1178,3 +1179,34 @@ def _marshalheld_rule(chk, prog):
                           "function is left by longjmp and the buffer with everything written so far is lost" % (
                               ms[0].text()[:50], buf, "without janet_try" if not guarded else "and never frees it"))
     chk.floor(rule, 1, n)
+
+
+def _blocklists_rule(chk, prog):
+    """Every collectable object sits on one of the VM's block lists (fields of JanetVM of type JanetGCObject *).  The
+    sweep walks each list to free the unreachable ones, and janet_clear_memory - run when a VM is torn down, i.e. at
+    every thread exit - has to walk each list to free everything.  A list one of the two does not walk is memory that
+    is never released: per collection in the first case, per thread in the second."""
+    rule = "C20-BLOCKLISTS"
+    chk.rule(rule, "janet_sweep and janet_clear_memory both walk every block list of the VM (each JanetVM field of type JanetGCObject *)")
+    vm = prog.records.get("JanetVM")
+    if vm is None:
+        raise AnalysisBroken("record JanetVM not found")
+    # the lists are the JanetVM fields janet_gcalloc links a new object into (`janet_vm.<field> = mem`)
+    alloc = prog.need_func("janet_gcalloc", "gc.c")
+    lists = sorted(set(x.kids[0].field for x in alloc.nodes if x.k == "asg" and x.op == "=" and x.kids[0].k == "mem" and x.kids[0].rec == "JanetVM"
+                       and strip_casts(x.kids[1]).k == "ref" and "*" in (strip_casts(x.kids[1]).t or "")))
+    if len(lists) < 2:
+        raise AnalysisBroken("JanetVM: block list fields not recognised (%s)" % lists)
+    for fname in ("janet_sweep", "janet_clear_memory"):
+        fn = prog.need_func(fname, "gc.c")
+        chk.analysed(fn)
+        read = set(x.field for x in fn.nodes if x.k == "mem" and x.rec == "JanetVM")
+        for l in lists:
+            chk.instance(rule)
+            if l in read:
+                chk.ok(rule, "%s walks janet_vm.%s" % (fname, l))
+            else:
+                chk.violation(rule, "gc.c", fname, l, fn.loc,
+                              "%s does not touch janet_vm.%s: the objects on that list (weak tables and arrays live on a list of their own) "
+                              "are never freed by it - every thread that exits leaks all of them" % (fname, l))
+    chk.floor(rule, 4)
